@@ -21,6 +21,7 @@ ENGINES = {
     'forward': dict(quick=120, thorough=3000),
     'authflow': dict(quick=150, thorough=4000),
     'htmlesc': dict(quick=3000, thorough=100000),
+    'system': dict(quick=40, thorough=1500),
 }
 
 PROPS = {
@@ -29,13 +30,13 @@ PROPS = {
     'C03': dict(spec_mods=['SsoSpec.C03'], engines=['forward', 'proxyflow']),
     'C04': dict(spec_mods=['SsoSpec.C04'], engines=['proxyflow', 'sfwrap']),
     'C05': dict(spec_mods=['SsoSpec.C05'], engines=['proxyflow']),
-    'C06': dict(spec_mods=['SsoSpec.C06'], engines=['proxyflow', 'sfwrap']),
-    'C07': dict(spec_mods=['SsoSpec.C07'], engines=['authflow']),
-    'C08': dict(spec_mods=['SsoSpec.C08'], engines=['authflow']),
+    'C06': dict(spec_mods=['SsoSpec.C06'], engines=['proxyflow', 'sfwrap', 'system']),
+    'C07': dict(spec_mods=['SsoSpec.C07'], engines=['authflow', 'system']),
+    'C08': dict(spec_mods=['SsoSpec.C08'], engines=['authflow', 'system']),
     'C09': dict(spec_mods=['SsoSpec.C09'], engines=['authflow', 'sfwrap']),
-    'C10': dict(spec_mods=['SsoSpec.C10'], engines=['authflow', 'sfwrap']),
+    'C10': dict(spec_mods=['SsoSpec.C10'], engines=['authflow', 'sfwrap', 'system']),
     'C11': dict(spec_mods=['SsoSpec.C11'], engines=['validators', 'proxyflow']),
-    'C19': dict(spec_mods=['SsoSpec.C19'], engines=['authflow', 'proxyflow', 'sfwrap']),
+    'C19': dict(spec_mods=['SsoSpec.C19'], engines=['system', 'authflow', 'proxyflow', 'sfwrap']),
     'C20': dict(spec_mods=['SsoSpec.C20'], engines=['htmlesc', 'authflow', 'proxyflow']),
     'C18': dict(spec_mods=['SsoSpec.C18'], engines=['proxyflow', 'authflow']),
     'C12': dict(spec_mods=['SsoSpec.C12'], engines=['forward']),
@@ -61,7 +62,7 @@ AF_FLOOR = ['authflow:signin/code', 'authflow:signin/page', 'authflow:signin/err
             'authflow:outside-service']
 FW_FLOOR = ['forward:overlap/overlapped', 'forward:authenticated', 'forward:skip-auth', 'forward:connection-nominates-tracked', 'forward:session-cookie-present', 'forward:rsa/verifies', 'forward:rsa/mismatch', 'forward:hmac/on']
 FLOORS = {
-    'C03': FW_FLOOR + PF_FLOOR, 'C12': FW_FLOOR, 'C07': AF_FLOOR, 'C08': AF_FLOOR, 'C09': AF_FLOOR + ['sfwrap:auth/validate/leader', 'sfwrap:auth/validate/follower'], 'C10': AF_FLOOR + ['sfwrap:auth/redeem/leader'], 'C19': AF_FLOOR + PF_FLOOR + ['sfwrap:auth/revoke/leader', 'sfwrap:auth/revoke/follower'], 'C20': ['htmlesc:escaped', 'htmlesc:verbatim', 'authflow:signin/page', 'authflow:signout/page', 'authflow:signout/revoke-failed', 'authflow:gate/SignIn/400', 'proxyflow:cb/errorParam'],
+    'C03': FW_FLOOR + PF_FLOOR, 'C12': FW_FLOOR, 'C07': AF_FLOOR, 'C08': AF_FLOOR, 'C09': AF_FLOOR + ['sfwrap:auth/validate/leader', 'sfwrap:auth/validate/follower'], 'C10': AF_FLOOR + ['sfwrap:auth/redeem/leader'], 'C19': AF_FLOOR + PF_FLOOR + ['sfwrap:auth/revoke/leader', 'sfwrap:auth/revoke/follower', 'system:login/ok', 'system:signout/ok', 'system:signout/500', 'system:visit/revoked-and-due', 'system:visit/revoked-not-due', 'system:visit/validate/ok', 'system:visit/refresh/ok', 'system:login/already-signed-in-at-authenticator'], 'C20': ['htmlesc:escaped', 'htmlesc:verbatim', 'authflow:signin/page', 'authflow:signout/page', 'authflow:signout/revoke-failed', 'authflow:gate/SignIn/400', 'proxyflow:cb/errorParam'],
     'C01': PF_FLOOR + ['sfwrap:proxy/validate/follower', 'sfwrap:proxy/redeem/leader'], 'C04': PF_FLOOR + ['sfwrap:proxy/validate/leader', 'sfwrap:proxy/validate/follower', 'sfwrap:proxy/refresh/follower'], 'C05': PF_FLOOR, 'C13': PF_FLOOR, 'C06': PF_FLOOR + ['sfwrap:proxy/redeem/leader'], 'C18': PF_FLOOR,
     'C14': ['config:loaded', 'config:loaded/skip-regex', 'config:error/missingService', 'config:error/missingFrom', 'config:error/missingTo',
             'config:error/badFromUrl', 'config:error/badFromRegex', 'config:error/unknownType', 'config:error/badSkipRegex',
@@ -158,7 +159,8 @@ ASSUME = {
     'C09': ["ideal AEAD (C02) for the authenticator cookie", "the scripted IdP answers stand for the provider's current verdict"],
     'C10': ["encoding/json and base64 decoding of provider bodies are oracles", "Cognito is not exercised (AWS SDK); its Redeem is covered by reading only"],
     'C20': ["a value rendered through html/template in the two proven-safe contexts is exactly htmlEscape of it (differential)", "browsers tokenise as the HTML standard says (the model covers the two states involved)"],
-    'C19': ["a revoked token no longer validates/refreshes at the IdP (the single assumption about the IdP)", "as C04/C05 for the proxy half"],
+    'C19': ["identity provider: a revoked token no longer validates or refreshes, and revoking any token of a grant revokes the grant — its refresh token and every access token issued under it, including one the proxy obtained later by refreshing (Google revokes the grant when given an access token; sso's Okta provider revokes the refresh token). With an IdP that keeps later access tokens of the grant alive, a proxy session that has refreshed since login would survive the sign-out until that token expires: the authenticator only ever revokes the token in *its own* cookie",
+            "as C04/C05 for the proxy half"],
     'C03': ["net/http parsing as oracle", "the session presented by authenticated requests is valid and fresh (gates are C01's business)"],
     'C12': ["RSA/HMAC idealised in the theorems; verified for real by the backend", "upstream `to` is a bare host (as in the property)"],
     'C01': PF_ASSUME, 'C06': PF_ASSUME, 'C18': PF_ASSUME, 'C04': PF_ASSUME + ["histories are per browser: the client may present any cookie of its own chain, nothing else opens (C02)"], 'C05': PF_ASSUME + ["grace window statements are per session value: replaying a pre-outage cookie restarts the window (outside the property's one-browser quantifier; see DESIGN)"], 'C13': PF_ASSUME,
